@@ -303,13 +303,29 @@ func VerifC13ListDelIndex() {
 //verif:property C13
 //verif:encoding int
 //verif:expect called
-func VerifC13ListSetSlice() {
+func VerifC13ListSetSlice() { c13SetSlice(false) }
+
+// the right-hand side is the list being assigned to
+//
+//verif:property C13 C17
+//verif:encoding int
+//verif:expect called
+func VerifC13ListSetSliceSelf() { c13SetSlice(true) }
+
+func c13SetSlice(self bool) {
 	n := verifChoice("n", verifBound(3, 5))
-	m := verifChoice("m", verifBound(3, 4))
 	items := c13Items(n, 101)
-	vals := c13Items(m, 201)
 	l := NewListFromItems(items)
-	v := NewListFromItems(vals)
+	var m int
+	var vals []Object
+	var v *List
+	if self {
+		m, vals, v = n, append([]Object{}, items...), l
+	} else {
+		m = verifChoice("m", verifBound(3, 4))
+		vals = c13Items(m, 201)
+		v = NewListFromItems(vals)
+	}
 	a, b, k := c13Bound("start", 2), c13Bound("stop", 2), c13Bound("step", 2)
 	_, err := SetItem(l, NewSlice(a.obj, b.obj, k.obj), v)
 	verifReach("called")
@@ -348,7 +364,9 @@ func VerifC13ListSetSlice() {
 		verifAssert(err == nil, "no error")
 		verifAssert(c13SameItems(l.Items, want), "extended slice elements replaced")
 	}
-	verifAssert(c13SameItems(v.Items, vals), "right-hand side unchanged")
+	if !self {
+		verifAssert(c13SameItems(v.Items, vals), "right-hand side unchanged")
+	}
 }
 
 //verif:property C13
@@ -457,3 +475,29 @@ func VerifC13ListRepeatR() { c13Repeat(c13MkList, c13UnList, true) }
 func VerifC13TupleRepeat() { c13Repeat(c13MkTuple, c13UnTuple, false) }
 
 func bigOf(v int64) *big.Int { return big.NewInt(v) }
+
+// A tuple obtained by slicing shares storage with its source: concatenating
+// onto it must not write into the source or into an earlier result.
+//
+//verif:property C13
+//verif:expect called
+func VerifC13TupleConcatSub() {
+	n := verifChoice("n", verifBound(5, 6))
+	k := verifChoice("k", verifBound(5, 6))
+	verifAssume(k <= n)
+	items := c13Items(n, 101)
+	t := Tuple(append([]Object{}, items...))
+	sub, err := GetItem(t, NewSlice(None, Int(k), None))
+	verifAssert(err == nil, "no error")
+	r1, err := Add(sub, Tuple{Int(-1)})
+	verifAssert(err == nil, "no error")
+	r2, err := Add(sub, Tuple{Int(-2), Int(-3)})
+	verifAssert(err == nil, "no error")
+	verifReach("called")
+	verifAssert(c13SameItems([]Object(t), items), "source tuple unchanged by concatenation onto its slice")
+	g1, ok1 := r1.(Tuple)
+	g2, ok2 := r2.(Tuple)
+	verifAssert(ok1 && ok2, "results are tuples")
+	verifAssert(c13SameItems([]Object(g1), append(append([]Object{}, items[:k]...), Int(-1))), "first concatenation intact")
+	verifAssert(c13SameItems([]Object(g2), append(append([]Object{}, items[:k]...), Int(-2), Int(-3))), "second concatenation")
+}
